@@ -48,6 +48,9 @@ pub struct FaultProfile {
     pub flip_first_byte_every: Option<u64>,
     /// explicit ordinals to drop
     pub drop_ordinals: Vec<u64>,
+    /// drop the first `n` datagrams of this direction that contain a packet of this kind
+    /// ('i' Initial, 'h' Handshake, '0' 0-RTT, 's' short header; see `walk_kinds`)
+    pub drop_first_of_kind: Option<(char, u32)>,
 }
 
 impl Default for FaultProfile {
@@ -66,6 +69,7 @@ impl Default for FaultProfile {
             corrupt_from: None,
             flip_first_byte_every: None,
             drop_ordinals: vec![],
+            drop_first_of_kind: None,
         }
     }
 }
@@ -100,6 +104,7 @@ impl FaultProfile {
                 .and_then(|x| x.as_array())
                 .map(|a| a.iter().filter_map(|x| x.as_u64()).collect())
                 .unwrap_or_default(),
+            drop_first_of_kind: v.get("drop_first_of_kind").and_then(|x| x.as_array()).and_then(|a| Some((a.first()?.as_str()?.chars().next()?, a.get(1)?.as_u64()? as u32))),
         }
     }
 
@@ -113,6 +118,7 @@ impl FaultProfile {
             "corrupt_from_ms": self.corrupt_from.map(|d| d.as_millis() as u64),
             "flip_first_byte_every": self.flip_first_byte_every,
             "drop_ordinals": self.drop_ordinals,
+            "drop_first_of_kind": self.drop_first_of_kind.map(|(k, n)| json!([k.to_string(), n])),
         })
     }
 }
@@ -164,6 +170,7 @@ pub struct NetInner {
     profiles: HashMap<SocketAddr, FaultProfile>,
     rng: Rng,
     ordinals: HashMap<(SocketAddr, SocketAddr), u64>,
+    kind_drops: HashMap<(SocketAddr, SocketAddr), u32>,
     pub sent: Vec<WireEvent>,
     pub delivered: Vec<DeliveryEvent>,
     pub keep_log: bool,
@@ -273,6 +280,7 @@ impl SimNet {
             profiles: HashMap::new(),
             rng: Rng::new(seed),
             ordinals: HashMap::new(),
+            kind_drops: HashMap::new(),
             sent: vec![],
             delivered: vec![],
             keep_log: true,
@@ -392,6 +400,9 @@ impl SimNet {
                 fate = Fate::Drop("blackout");
             } else if p.drop_ordinals.contains(&ord) {
                 fate = Fate::Drop("ordinal");
+            } else if p.drop_first_of_kind.is_some_and(|(k, n)| walk_kinds(data).0.contains(k) && *g.kind_drops.get(&(src, dst)).unwrap_or(&0) < n) {
+                *g.kind_drops.entry((src, dst)).or_insert(0) += 1;
+                fate = Fate::Drop("kind");
             } else if p.corrupt_from.is_some_and(|d| t >= d) && !data.is_empty() {
                 let r_aux = g.rng.next_u64();
                 let n = 1 + (r_aux % 8) as usize;
